@@ -241,7 +241,7 @@ def observe_literals(pr, d, consts_by_file):
             first = [l for l in p.stderr.splitlines() if "error" in l][:1]
             evs.append({"ev": "Fault", "what": "c-header-does-not-compile:" + (first[0][-150:] if first else "")})
             continue
-        p = subprocess.run([exe], capture_output=True, text=True, timeout=20)
+        p = subprocess.run([exe], capture_output=True, text=True, timeout=1800)
         with open(os.path.join(d, f + "_bp.h")) as fh:
             macro_text = dict(re.findall(r"^#define\s+(\w+)\s+(.*?)\s*$", fh.read(), re.M))
         for line in p.stdout.splitlines():
